@@ -360,7 +360,7 @@ CLAUSES = {p: p + '.' for p in SYS_PROPS}
 MC_PROPS = {   # design-level statements checked on S (names in BertE.tla)
     'C01': ['C01_Incl'], 'C02': ['C02_AllOrNone'], 'C03': ['C03_Green', 'C05_Select'],
     'C08': ['C08_FF', 'C08_Foreign'], 'C12': ['C12_Held'], 'C19': ['C19_Children'],
-    'C06': [], 'C10': ['C10_CmdConsumed'], 'C15': ['C15_ManualKept', 'C15_OwnOnly', 'C15_LossyRefuses'],
+    'C06': ['C06_Gate'], 'C04': ['C04_Gate'], 'C10': ['C10_CmdConsumed'], 'C15': ['C15_ManualKept', 'C15_OwnOnly', 'C15_LossyRefuses'],
     'C20': ['C20_EntryFate', 'C20_DestDel'],
 }
 
